@@ -61,12 +61,14 @@ def classify(t, F):
     return ('unknown', ir.show(t))
 
 
-def check(tier):
-    rep = Report("C04", tier, "other")
+def declare(rep):
     rep.rule("C04.compile", "nearest_neighbour<probe<I,N,T,M>, vd<F,N>> lookup harness compiles", floor=6)
     rep.rule("C04.one-query", "exactly one unconditional backend query on the view's own backend with N components", floor=6)
     rep.rule("C04.round", "argument k = int(round-to-nearest(c_k)): whitelisted rounding, applied to exactly c_k, in the coordinate's own floating type", floor=10)
     rep.rule("C04.out", "result component q is component q of the queried value", floor=6)
+
+
+def run(rep, tier):
     if tier == "quick":
         combos = [(N, (N % 3) + 1, F, I) for N in (1, 2, 3) for F in ("float", "double") for I in ("size_t", "int")] + [(4, 2, "double", "unsigned")]
     else:
@@ -116,6 +118,13 @@ def check(tier):
             rep.ok("C04.out", inst)
         else:
             rep.fail("C04.out", inst, FILE, "result is not the queried value's components")
+    return hs
+
+
+def check(tier):
+    rep = Report("C04", tier, "other")
+    declare(rep)
+    hs = run(rep, tier)
     rep.assumptions = ["default floating-point environment (round-to-nearest)", "libm contract: the whitelisted functions round to a nearest integer (ties differ, both within one half)",
                        "coordinates in (-0.5, extent-0.5): the integer conversion after rounding is exact"]
     rep.extra["instantiations"] = [h.name for h in hs]
